@@ -236,9 +236,11 @@ class ObjectNode:
 
     @cached_property
     def _ids(self) -> set[int]:
+        # Placeholder nodes (the parents of an inspected submodule) hold `None`, which is not an actual ancestor object.
+        ids = set() if self.obj is None else {id(self.obj)}
         if self.parent is None:
-            return {id(self.obj)}
-        return {id(self.obj)} | self.parent._ids
+            return ids
+        return ids | self.parent._ids
 
     def _pick_member(self, name: str, member: Any) -> bool:
         return (
